@@ -7,6 +7,12 @@ RULE = ("the programs of C03 (same generator, evaluated stepwise on the real cod
         "(binary math/comparison -> None; unary, cast, fillna, copy, slicing, masking, sorting, in-place writes keep the name; "
         "table construction, >>, selection, row filters, sort, join keep source names in order; table-with-table arithmetic by "
         "_resolve_binary_name; aggregate/window = key names then <sanitised>_<fn>, uniquified). "
+        "Added by the gap analysis: forms / bigforms (scripted operand FORMS and object STATES over every leaf dtype: tuple operands, "
+        "bool/int Vector and tuple keys, Vector / tuple / self values, the same object on both sides of <<, >>, v[v], t + t, joins, "
+        "constructor routes, falsy / negative / bytes / timedelta scalars, declared-wider-than-contents operands, keys and aggregands "
+        "given by name / accessor spelling / bare / tuple, vectors and columns renamed in place after use, table unary / << / == / "
+        "copy / reductions / 2-D selection (no model rule: truthfulness in Lean, names judged in Python), vectors of 300 and 1100 "
+        "elements with the deciding element last), treex / big (random programs over all of that). "
         "non-trivial = at least one non-leaf operation returned a vector or table")
 ASSUMPTIONS = [
     "_sanitize_user_name (subject of C17) is used as the oracle for the sanitised part of aggregate names",
@@ -14,7 +20,7 @@ ASSUMPTIONS = [
     "column names are strings or None",
     "a step the model refuses (e.g. >> of unequal lengths, which yields a nested non-Table vector) is not judged",
 ]
-BUDGET_S = {"quick": 28, "thorough": 400}
+BUDGET_S = {"quick": 36, "thorough": 480}
 
 
 NONSTR_SEQS = [["1", "1.0", "True"], ["1.0", "1", "True"], ["True", "1.0", "1"], ["2024", "2024.0"], ["2024.0", "2024"],
